@@ -4,7 +4,9 @@ from ..ech import H
 LEVEL = "model_checking"
 ENGINE = "E-CH+E-TS"
 EXPLANATION = (
-    "E-TS slice: the real terminate_broken -> kill_workers -> join_executor_internals compiled from the AST, from any "
+    "E-TS slices: the real submit -> _ensure_executor_running -> _adjust_process_count against the real "
+    "wait_result_broken_or_wakeup loop and the death of the freshly spawned worker at any instant (is the death ever "
+    "unwatched?); the real terminate_broken -> kill_workers -> join_executor_internals compiled from the AST, from any "
     "consistent bookkeeping state incl. user-cancelled futures (bounded model checking, replayed on the real code). "
     "Step contracts on the real manager-thread methods (CrossHair/z3): the full decision table of "
     "wait_result_broken_or_wakeup (symbolic readiness subset of {result pipe, wakeup pipe, sentinels}, symbolic kind "
@@ -13,7 +15,7 @@ EXPLANATION = (
     "once and reaped, internals closed), exit-code naming for all codes -64..255, and submit() on a broken pool "
     "raising that same error (C03 submit step).")
 ASSUMPTIONS = [
-    "crash points and interleavings are not searched here (no concurrent model claimed for C02): the claim is the manager's reaction once wait() returns, from any bookkeeping state",
+    "interleavings are searched in the slices only (terminate_broken vs submit; submit re-spawning a worker vs its death vs the manager's wait loop); the step contracts claim the manager's reaction once wait() returns, from any bookkeeping state",
     "that SIGKILL ends a process and makes its sentinel readable is a kernel property",
     "kill_process_tree is a recorder here; its tree walk is checked in C06",
     "known limitation of the real code (finding F5, recorded): a worker dying half-way through a large result leaves recv() blocked; not expressible in this step contract",
@@ -32,6 +34,8 @@ def units(tier):
     return [
         SL("slice.terminate_broken", "x6_terminate_broken", 44),
         SL("slice.terminate_broken_vs_submit", "x6_terminate_broken", 70, params={"with_user": True}),
+        SL("slice.crash_after_respawn", "x10_crash_after_respawn", 60, params={"live0": 0}),
+        SL("slice.crash_after_respawn_1of2", "x10_crash_after_respawn", 60, params={"live0": 1}),
         H("C02", M, "check_wait_table", t, [PE + "wait_result_broken_or_wakeup", "loky.backend.utils:get_exitcodes_terminated_worker", "loky.backend.utils:_format_exitcodes"],
           "1..2 workers, readiness subset symbolic, item kind in {result, pid, remote traceback, garbled}, exit code -15..3"),
         H("C02", M, "check_exitcode_names", t, ["loky.backend.utils:_format_exitcodes", "loky.backend.utils:_get_exitcode_name"], "exit codes -64..255"),
